@@ -182,7 +182,9 @@ def run_case(case, ctx):
     judge_trace = floor_rel < 0.1 and case["special"] != "huge" and case["special"] != "tiny"
     x_prev = beg["result"].to(torch.float64)
     e0 = _anorm(x_prev - Xs, A64)
-    phi = floor_rel * e0 + 1e-300
+    # the floor is a property of the solve, not of the start: with an initial guess close to the solution e_0 is small while the
+    # attainable accuracy stays relative to the solution itself
+    phi = floor_rel * torch.maximum(e0, _anorm(Xs, A64)) + 1e-300
     e_prev = e0
     conv_prev = None
     ok_trace = True
@@ -321,7 +323,8 @@ def run_case(case, ctx):
         res1, ex1 = compare.attempt(run, B, pre, max(mi, 2 * n), 0, 1e-10, x0, min(ti, max(mi, 2 * n)))
         if ex is None and ex1 is None and torch.isfinite(res1[0]).all():
             e = compare.relerr(res2[0], res1[0] * c, scale=1e-300)
-            if not e <= 4 * math.sqrt(kA) * floor_rel + 1e-6:
+            # float32: the two runs freeze their columns at slightly different iterations (the freeze threshold is absolute)
+            if not e <= (4 if dt == torch.float64 else 40) * math.sqrt(kA) * floor_rel + 1e-6:
                 ctx.fail("scaling_linearity", "value", err=e, **kw)
             else:
                 ctx.ok("scaling_linearity", kb, n >= 2)
